@@ -31,6 +31,12 @@ THEOREMS = [
     dict(name="Snow.C03.stats_kept", clause="no nucleation: recorded statistics unchanged", strength="full"),
     dict(name="Snow.C03.kb_per_vial", clause="k_v = 10^-(a + c·xi_v) > 0, and vial i uses only its own k_v",
          strength="full"),
+    dict(name="Snow.C03.kb_from_xi", clause="the run's parameters are built by Params.withXi a c xi (driver), so "
+         "k_v of vial i = 10^-(a + c·xi_i) of its own standard normal", strength="full"),
+    dict(name="Snow.C03.dice_routing", clause="its uniform random draw: the r-th number of the generator call goes to the "
+         "r-th candidate in vial-index order; non-candidates get no draw", strength="full"),
+    dict(name="Snow.C03.step_dice", clause="the per-vial dice of a step are that routing applied to the step's candidate "
+         "mask and the numbers delivered to the step", strength="full"),
     dict(name="Snow.C03.P_pos", clause="P > 0 on candidates", strength="full"),
     dict(name="Snow.C03.P_mono_supercooling", clause="P strictly increasing in the supercooling (b > 0)", strength="full"),
     dict(name="Snow.C03.step_probability", clause="Lebesgue measure of {u in [0,1) | u < P} = min(max(P,0),1)",
